@@ -210,8 +210,10 @@ def gen_program(rng):
             funcs[name] = params
             mod_names.append(name)
         else:
-            bases = [c for c in classes if rng.random() < 0.4][:1]
-            lines.append('class %s%s:' % (name, '(%s)' % bases[0] if bases else ''))
+            bases = [c for c in classes if rng.random() < 0.45][:2]
+            if name in classes:
+                continue        # keep class names unique so base lists stay meaningful
+            lines.append('class %s%s:' % (name, '(%s)' % ', '.join(bases) if bases else ''))
             attrs = []
             for _ in range(rng.randint(0, 3)):
                 a = variants(rng, rng.choice(IDENT_BASES))
@@ -266,12 +268,15 @@ def gen_program(rng):
             c = insts.get(recv, recv)
             allattrs = []
             seen = set()
-            cc = c
-            while cc is not None and cc not in seen:
+            todo = [c]
+            while todo:
+                cc = todo.pop(0)
+                if cc in seen:
+                    continue
                 seen.add(cc)
                 b, at, sa = classes[cc]
                 allattrs += at + (sa if recv in insts else [])
-                cc = b[0] if b else None
+                todo += list(b)
             frag = fragment_of(rng.choice(allattrs)) if allattrs and rng.random() < 0.6 else ''
             lines.append('%s.%s' % (recv, frag))
             probes.append((len(lines), len(recv) + 1 + len(frag), 'attr', (recv, frag)))
@@ -381,6 +386,103 @@ def runtime_attrs(src_body, expr):
 
 def demangle(cls_chain_names, n):
     return n
+
+
+def gen_hierarchy(rng):
+    """class hierarchies for the attribute-completeness clause: 3-7 classes, 0-2 bases each
+    (nested multiple inheritance, mixins, diamonds), class attributes, methods, `self.x = ...`
+    in __init__; every class is instantiated and completed after `obj.`"""
+    names = ['Ka', 'Kb', 'Kc', 'Kd', 'Ke', 'Kf', 'Kg']
+    n = rng.randint(3, 7)
+    lines = []
+    nb = {}
+    anc = {}
+    for i in range(n):
+        k = rng.choice([0, 1, 2, 2, 2, 3]) if i else 0
+        # prefer bases that have several bases themselves (nested multiple inheritance)
+        pool = names[:i]
+        weights = [1 + 2 * nb.get(b, 0) for b in pool]
+        bases = []
+        while pool and len(bases) < min(k, i):
+            b = rng.choices(pool, weights)[0]
+            j = pool.index(b)
+            pool = pool[:j] + pool[j + 1:]
+            weights = weights[:j] + weights[j + 1:]
+            bases.append(b)
+        # a valid C3 linearisation needs descendants before their ancestors in the base list
+        bases.sort(key=lambda b: -len(anc[b]))
+        bases = [b for j, b in enumerate(bases) if not any(b in anc[o] for o in bases[:j])] or bases[:1] if bases else []
+        anc[names[i]] = set(bases).union(*[anc[b] for b in bases]) if bases else set()
+        nb[names[i]] = len(bases)
+        lines.append('class %s%s:' % (names[i], '(%s)' % ', '.join(bases) if bases else ''))
+        body = 0
+        for _ in range(rng.randint(0, 2)):
+            lines.append('    %s_%s = %d' % (rng.choice(['c', 'attr', '_p']), names[i].lower(), rng.randint(0, 9)))
+            body += 1
+        if rng.random() < 0.5:
+            lines.append('    def __init__(self):')
+            for _ in range(rng.randint(1, 2)):
+                lines.append('        self.%s_%s = %d' % (rng.choice(['s', 'inst']), names[i].lower(), rng.randint(0, 9)))
+            body += 1
+        for _ in range(rng.randint(0, 2)):
+            lines.append('    def %s_%s(self):' % (rng.choice(['m', 'meth']), names[i].lower()))
+            lines.append('        return 1')
+            body += 1
+        if not body:
+            lines.append('    pass')
+    defs = '\n'.join(lines) + '\n'
+    probes = []
+    for i in range(n):
+        probes.append(('o%d = %s()\no%d.' % (i, names[i], i), 'o%d' % i))
+    return defs, probes
+
+
+def analyse_hierarchy(seed):
+    import random
+    import jedi
+    rng = random.Random(seed)
+    out = []
+    for _ in range(4):
+        defs, probes = gen_hierarchy(rng)
+        try:
+            compile(defs, '<h>', 'exec')
+            exec(compile(defs, '<h>', 'exec'), {'__name__': '__h__'})
+        except Exception:
+            continue            # inconsistent MRO etc.: not an executable program
+        for tail, var in probes:
+            src = defs + tail
+            try:
+                expected, _obj = runtime_attrs(defs + tail.split('\n')[0] + '\n', var)
+            except Exception:
+                continue
+            line = src.count('\n') + 1
+            col = len(src.split('\n')[-1])
+            rec = {'source': src, 'line': line, 'column': col, 'expected': sorted(expected)}
+            try:
+                comps = jedi.Script(src).complete(line, col)
+                rec['offered'] = sorted({c.name for c in comps})
+            except Exception as e:
+                rec['raised'] = '%s@%s' % common.exc_site(e)
+            out.append(rec)
+    return out
+
+
+def stream_hierarchy(ctx):
+    seeds = ['%s-hier-%d' % (ctx.seed, i) for i in range(ctx.size(30, 600))]
+    how = 'jedi.Script(source).complete(line, column) vs dir() of the executed object'
+    for recs in common.parallel_map('props.c04', 'analyse_hierarchy', seeds):
+        for rec in recs:
+            if 'raised' in rec:
+                ctx.count('raised', (rec['source'],), nontrivial=False, bucket=rec['raised'])
+                continue
+            exp = rec['expected']
+            ctx.count('attrs', (rec['source'],), nontrivial=bool(exp), bucket='hierarchy attrs=%d' % min(len(exp), 8),
+                      sample={'source': rec['source'], 'expected': exp})
+            missing = [n for n in exp if n not in rec['offered']]
+            if missing:
+                ctx.fail('attrs', 'run-time attribute defined in source is not offered',
+                         {'source': rec['source'], 'line': rec['line'], 'column': rec['column']},
+                         expected=exp, observed={'missing': missing}, how=how)
 
 
 def stream_e2e(ctx, reqs):
@@ -569,6 +671,7 @@ def run(ctx):
     cases += stream_filter(ctx, reqs)
     cases += stream_e2e(ctx, reqs)
     stream_known(ctx)
+    stream_hierarchy(ctx)
     if ctx.model_ok:
         answers = common.run_driver_parallel('C04', reqs)
         compare(ctx, cases, answers)
